@@ -64,6 +64,10 @@ func c02Alphabet(s *sessSys) []sessReq {
 			add("assoc", sessReq{sReq: sReq{Kind: kAssoc, Conn: c}})
 		}
 		add("hb", sessReq{sReq: sReq{Kind: kHB, Conn: c}})
+		if c == 0 && s.m.Assoc[c] != "" {
+			// the peer's clock (or the peer) says a later Recovery Time Stamp than at association time: still one answer
+			add("hb-newer-ts", sessReq{sReq: sReq{Kind: kHB, Conn: c, TSOff: 10}})
+		}
 		if c == 0 {
 			add("pfd", sessReq{sReq: sReq{Kind: kPFD, Conn: c, PFDs: []sPFD{{App: "app1", Flows: []string{"permit out ip from 10.1.0.0/16 to assigned"}}}}})
 			add("pfd-bad", sessReq{sReq: sReq{Kind: kPFD, Conn: c, PFDs: []sPFD{{App: "app1", Bad: "noflow"}}}})
